@@ -72,6 +72,17 @@ func (c *Collector) Fatal(format string, a ...interface{}) {
 	c.res.Fatal = append(c.res.Fatal, fmt.Sprintf(format, a...))
 }
 
+// Anchor: a function, type, variable or call site that a rule instance is anchored in no longer resolves. The rule
+// cannot be evaluated, which fails the properties it serves (an undecided obligation), not the whole run.
+func (c *Collector) Anchor(props []string, format string, a ...interface{}) {
+	msg := fmt.Sprintf(format, a...)
+	if len(props) == 0 {
+		c.Fatal("%s", msg)
+		return
+	}
+	c.Add(Obligation{Props: props, Rule: "anchor", Construct: msg, Status: Undecided, Reason: "rule instance lost its anchor: " + msg})
+}
+
 func (c *Collector) Count(k string, n int) { c.res.Counts[k] += n }
 
 // ---------------------------------------------------------------------------------------------
